@@ -233,14 +233,18 @@ def c32_weights():
     return recs
 
 
+XPAT = np.array([[1.0, 2.0], [4.0, 8.0]])
+
+
 def _members(labels, rng):
     """1x1 members holding distinct small integers (value) and distinct small integers (error)."""
     from eko import member
 
     vals = rng.sample(range(2, 98), len(labels))
     errs = rng.sample(range(2, 98), len(labels))
+    # every member is its integer times the fixed 2 x 2 pattern XPAT on the grid indices (powers of two: exact)
     ops = {
-        lab: member.OpMember(np.array([[float(v)]]), np.array([[float(e)]]))
+        lab: member.OpMember(float(v) * XPAT, float(e) * XPAT)
         for lab, v, e in zip(labels, vals, errs)
     }
     ad = [
@@ -257,10 +261,18 @@ def _blow(op, qed, rec):
     rec["range"] = [int(x) for x in flavors.get_range(op.op_members.keys(), qed)]
     with np.errstate(all="ignore"):
         val, err = op.to_flavor_basis_tensor(qed)
-    if val.shape != (14, 1, 14, 1) or err.shape != (14, 1, 14, 1):
+    if val.shape != (14, 2, 14, 2) or err.shape != (14, 2, 14, 2):
         raise MachineryError(f"unexpected tensor shape {val.shape}")
     rec["tensor"] = mat(val[:, 0, :, 0])
     rec["etensor"] = mat(err[:, 0, :, 0])
+    # index placement (flavour, x, flavour, x): every grid entry of a flavour pair is the pattern times its weight
+    # (identity members of inert quarks contribute a multiple of the unit matrix: block = x XPAT + y 1)
+    def placed(t):
+        b00, b01, b10, b11 = t[:, 0, :, 0], t[:, 0, :, 1], t[:, 1, :, 0], t[:, 1, :, 1]
+        scale = max(float(np.max(np.abs(t))), 1.0)
+        return bool(np.max(np.abs(b10 - 2.0 * b01)) <= 1e-12 * scale and np.max(np.abs(2.0 * (b11 - b00) - 7.0 * b01)) <= 1e-12 * scale)
+
+    rec["xOk"] = placed(val) and placed(err)
 
 
 def c32_blowup(fam, nf, qed, rng):
@@ -270,7 +282,7 @@ def c32_blowup(fam, nf, qed, rng):
     from eko.evolution_operator import flavors, matching_condition, physical
 
     rec = {"ev": "blowup", "fam": fam, "nf": nf, "qed": qed, "nfin": nf, "nfout": nf, "err": "",
-           "ad": [], "members": [], "emembers": [], "range": [0, 0], "tensor": [], "etensor": []}
+           "ad": [], "members": [], "emembers": [], "range": [0, 0], "tensor": [], "etensor": [], "xOk": True}
     try:
         if fam == "physical":
             labs = list(br.full_unified_labels if qed else br.full_labels)
